@@ -25,15 +25,27 @@ unsafe impl Send for Op {}
 
 type Slot = Arc<Mutex<Vec<Op>>>;
 
-fn registry() -> &'static Mutex<Vec<Slot>> {
-    static R: OnceLock<Mutex<Vec<Slot>>> = OnceLock::new();
+fn registry() -> &'static Mutex<Vec<(u64, Slot)>> {
+    static R: OnceLock<Mutex<Vec<(u64, Slot)>>> = OnceLock::new();
     R.get_or_init(|| Mutex::new(vec![]))
+}
+
+/// Kernel id of the calling thread (0 if it cannot be read).
+fn thread_id() -> u64 {
+    std::fs::read_to_string("/proc/thread-self/stat").ok().and_then(|s| s.split_whitespace().next().and_then(|x| x.parse().ok())).unwrap_or(0)
+}
+
+/// CPU seconds (user + system) a thread of this process has used so far.
+fn thread_cpu_seconds(tid: u64) -> Option<f64> {
+    let stat = std::fs::read_to_string(format!("/proc/self/task/{tid}/stat")).ok()?;
+    let f: Vec<&str> = stat[stat.rfind(')')? + 2..].split_whitespace().collect();
+    Some((f.get(11)?.parse::<u64>().ok()? + f.get(12)?.parse::<u64>().ok()?) as f64 / 100.0)
 }
 
 thread_local! {
     static SLOT: Slot = {
         let s: Slot = Arc::new(Mutex::new(vec![]));
-        registry().lock().unwrap_or_else(|e| e.into_inner()).push(s.clone());
+        registry().lock().unwrap_or_else(|e| e.into_inner()).push((thread_id(), s.clone()));
         s
     };
 }
@@ -62,14 +74,19 @@ pub fn rss_kb() -> u64 {
 
 /// Operations in flight: (kind, type key, input bytes, seconds running), innermost operation of every thread.
 fn in_flight() -> Vec<(String, String, Vec<u8>, f64)> {
-    let slots: Vec<Slot> = registry().lock().unwrap_or_else(|e| e.into_inner()).clone();
+    in_flight_by_thread().into_iter().map(|x| (x.2, x.3, x.4, x.5)).collect()
+}
+
+/// The same with the thread's kernel id and the operation's start in front.
+fn in_flight_by_thread() -> Vec<(u64, Instant, String, String, Vec<u8>, f64)> {
+    let slots: Vec<(u64, Slot)> = registry().lock().unwrap_or_else(|e| e.into_inner()).clone();
     let mut out = vec![];
-    for s in slots {
+    for (tid, s) in slots {
         let g = s.lock().unwrap_or_else(|e| e.into_inner());
         if let Some(op) = g.last() {
             // SAFETY: see `Op`
             let bytes = unsafe { std::slice::from_raw_parts(op.bytes, op.len) }.to_vec();
-            out.push((op.kind.to_string(), op.key.clone(), bytes, op.since.elapsed().as_secs_f64()));
+            out.push((tid, op.since, op.kind.to_string(), op.key.clone(), bytes, op.since.elapsed().as_secs_f64()));
         }
     }
     out
@@ -77,24 +94,48 @@ fn in_flight() -> Vec<(String, String, Vec<u8>, f64)> {
 
 /// Start the watchdog thread.  On a runaway it writes `{reason, rss_kb, ops: [{kind, type, bytes, running_s}]}` to
 /// `report_path` and exits the process with `EXIT_RUNAWAY`.
+///
+/// `op_limit` is counted in CPU seconds of the thread that runs the operation (from the moment the watchdog first saw
+/// the operation), not in wall-clock seconds: on a stalled machine an operation can take arbitrarily long without
+/// being stuck.  (After an hour of wall-clock time the operation is handed to the confirmation step all the same.)
 pub fn start_watchdog(report_path: String, op_limit: Duration, rss_limit_kb: u64) {
-    std::thread::spawn(move || loop {
-        std::thread::sleep(Duration::from_millis(50));
-        let rss = rss_kb();
-        let ops = in_flight();
-        let slow = ops.iter().any(|o| o.3 > op_limit.as_secs_f64());
-        if rss > rss_limit_kb || slow {
-            let reason = if slow { format!("an operation is still running after {} s", op_limit.as_secs()) } else { format!("resident set {} MiB exceeds the budget of {} MiB", rss / 1024, rss_limit_kb / 1024) };
-            // the longest-running first; when memory ran out every operation in flight is a suspect
-            let mut ops = ops;
-            ops.sort_by(|a, b| b.3.partial_cmp(&a.3).unwrap_or(std::cmp::Ordering::Equal));
-            let j = serde_json::json!({
-                "reason": reason,
-                "rss_kb": rss,
-                "ops": ops.iter().filter(|o| !slow || o.3 > op_limit.as_secs_f64() / 2.0).map(|o| serde_json::json!({"kind": o.0, "type": o.1, "bytes": crate::hex(&o.2), "running_s": o.3})).collect::<Vec<_>>(),
-            });
-            let _ = std::fs::write(&report_path, j.to_string());
-            std::process::exit(EXIT_RUNAWAY);
+    std::thread::spawn(move || {
+        // thread id -> (start of the operation first seen there, the thread's CPU seconds at that moment)
+        let mut first_seen: std::collections::HashMap<u64, (Instant, f64)> = std::collections::HashMap::new();
+        loop {
+            std::thread::sleep(Duration::from_millis(50));
+            let rss = rss_kb();
+            let by_thread = in_flight_by_thread();
+            let mut stuck: Vec<usize> = vec![];
+            for (i, (tid, since, _, _, _, wall)) in by_thread.iter().enumerate() {
+                if *wall < 1.0 {
+                    first_seen.remove(tid);
+                    continue;
+                }
+                let now_cpu = thread_cpu_seconds(*tid);
+                let e = first_seen.entry(*tid).or_insert((*since, now_cpu.unwrap_or(0.0)));
+                if e.0 != *since {
+                    *e = (*since, now_cpu.unwrap_or(0.0));
+                }
+                let used = now_cpu.map(|c| c - e.1);
+                if used.map(|u| u > op_limit.as_secs_f64()).unwrap_or(*wall > op_limit.as_secs_f64()) || *wall > 3600.0 {
+                    stuck.push(i);
+                }
+            }
+            let slow = !stuck.is_empty();
+            if rss > rss_limit_kb || slow {
+                let reason = if slow { format!("an operation has used {} s of CPU time without returning", op_limit.as_secs()) } else { format!("resident set {} MiB exceeds the budget of {} MiB", rss / 1024, rss_limit_kb / 1024) };
+                // when memory ran out every operation in flight is a suspect (the longest-running first)
+                let mut ops: Vec<(String, String, Vec<u8>, f64)> = by_thread.iter().enumerate().filter(|(i, _)| !slow || stuck.contains(i)).map(|(_, x)| (x.2.clone(), x.3.clone(), x.4.clone(), x.5)).collect();
+                ops.sort_by(|a, b| b.3.partial_cmp(&a.3).unwrap_or(std::cmp::Ordering::Equal));
+                let j = serde_json::json!({
+                    "reason": reason,
+                    "rss_kb": rss,
+                    "ops": ops.iter().map(|o| serde_json::json!({"kind": o.0, "type": o.1, "bytes": crate::hex(&o.2), "running_s": o.3})).collect::<Vec<_>>(),
+                });
+                let _ = std::fs::write(&report_path, j.to_string());
+                std::process::exit(EXIT_RUNAWAY);
+            }
         }
     });
 }
